@@ -440,6 +440,25 @@ class Evaluator:
             return self.hooks[f](self, n)
         if f in ("np.arange", "range", "numpy.arange") and len(args) == 1:
             return SV("cycidx", [Poly.const(0)])     # the identity index i = 0 .. N-1 of the vertex cycle
+        if f in ("np.concatenate", "np.vstack") and len(args) >= 1 and isinstance(args[0], (ast.Tuple, ast.List)) and len(args[0].elts) == 2 \
+                and (len(args) == 1 or self._const(args[1]) == 0) and ("axis" not in kw or self._const(kw["axis"]) == 0):
+            # np.concatenate((X[k:], X[:k])): the rows of the cycle rotated by k  (= np.roll(X, -k, axis=0))
+            a_, b_ = args[0].elts
+
+            def _rows(e):
+                if isinstance(e, ast.Subscript):
+                    sl_ = e.slice.elts[0] if (isinstance(e.slice, ast.Tuple) and e.slice.elts and all(
+                        isinstance(x, ast.Slice) and x.lower is None and x.upper is None and x.step is None for x in e.slice.elts[1:])) else e.slice
+                    if isinstance(sl_, ast.Slice) and sl_.step is None:
+                        return ast.dump(e.value), (self._const(sl_.lower) if sl_.lower is not None else None), \
+                            (self._const(sl_.upper) if sl_.upper is not None else None), e.value
+                return None
+            ra, rb = _rows(a_), _rows(b_)
+            if ra and rb and ra[0] == rb[0] and ra[2] is None and rb[1] is None and isinstance(ra[1], int) and ra[1] == rb[2] and ra[1] != 0:
+                v = self.ev(ra[3])
+                if v.kind == "cyc":
+                    return SV("cyc", [shift_poly(c, ra[1]) for c in v.comps], v.summed)
+            raise NotInFragment("concatenate")
         if f == "np.roll":
             v = self.ev(args[0])
             sh = self._const(kw["shift"]) if "shift" in kw else self._const(args[1])
